@@ -31,7 +31,7 @@ func init() {
 			}
 			return ps
 		},
-		MinObserved: []string{"responses_checked", "goldap_responses_checked"},
+		MinObserved: []string{"responses_checked", "goldap_responses_checked", "responses_from_a_request_with_several_responses"},
 	})
 }
 
@@ -187,8 +187,87 @@ func genScript(r *Rand, ctor string) *c04Script {
 	return s
 }
 
+type c04Built struct {
+	s    *c04Script
+	resp gldap.Response
+	base interface {
+		SetResultCode(int)
+		SetDiagnosticMessage(string)
+		SetMatchedDN(string)
+	}
+	setCtls func(...gldap.Control)
+	addAttr func(string, []string)
+	next    int
+}
+
+// step applies the next setter; false when none is left.
+func (b *c04Built) step() (bool, error) {
+	if b.next >= len(b.s.Setters) {
+		return false, nil
+	}
+	st := b.s.Setters[b.next]
+	b.next++
+	switch st.Kind {
+	case "code":
+		b.base.SetResultCode(st.Code)
+	case "diag":
+		b.base.SetDiagnosticMessage(string(st.Str))
+	case "matched":
+		b.base.SetMatchedDN(string(st.Str))
+	case "controls":
+		cs, err := toGldapAll(st.Ctls)
+		if err != nil {
+			return false, err
+		}
+		b.setCtls(cs...)
+	case "addattr":
+		b.addAttr(string(st.Name), bytesToStrs(st.Vals))
+	}
+	return true, nil
+}
+
 // run executes the script inside a handler and writes the single response.
 func (s *c04Script) run(w *gldap.ResponseWriter, r *gldap.Request) error {
+	b := s.build(r)
+	for {
+		more, err := b.step()
+		if err != nil {
+			return err
+		}
+		if !more {
+			break
+		}
+	}
+	return w.Write(b.resp)
+}
+
+// runGroup builds several responses from ONE request first, then applies their
+// setters interleaved, then writes them in order: responses created from the
+// same request must not influence one another.
+func runGroup(w *gldap.ResponseWriter, r *gldap.Request, group []*c04Script) error {
+	var built []*c04Built
+	for _, s := range group {
+		built = append(built, s.build(r))
+	}
+	for progress := true; progress; {
+		progress = false
+		for _, b := range built {
+			more, err := b.step()
+			if err != nil {
+				return err
+			}
+			progress = progress || more
+		}
+	}
+	for _, b := range built {
+		if err := w.Write(b.resp); err != nil {
+			return err
+		}
+	}
+	return nil
+}
+
+func (s *c04Script) build(r *gldap.Request) *c04Built {
 	var opts []gldap.Option
 	for _, k := range s.OptOrder {
 		switch k {
@@ -214,54 +293,28 @@ func (s *c04Script) run(w *gldap.ResponseWriter, r *gldap.Request) error {
 			}
 		}
 	}
-	type baseSetter interface {
-		SetResultCode(int)
-		SetDiagnosticMessage(string)
-		SetMatchedDN(string)
-	}
-	var resp gldap.Response
-	var base baseSetter
-	var setCtls func(...gldap.Control)
-	var addAttr func(string, []string)
+	b := &c04Built{s: s}
 	switch s.Ctor {
 	case "NewResponse":
 		x := r.NewResponse(opts...)
-		resp, base = x, x
+		b.resp, b.base = x, x
 	case "NewBindResponse":
 		x := r.NewBindResponse(opts...)
-		resp, base, setCtls = x, x, x.SetControls
+		b.resp, b.base, b.setCtls = x, x, x.SetControls
 	case "NewSearchDoneResponse":
 		x := r.NewSearchDoneResponse(opts...)
-		resp, base, setCtls = x, x, x.SetControls
+		b.resp, b.base, b.setCtls = x, x, x.SetControls
 	case "NewSearchResponseEntry":
 		x := r.NewSearchResponseEntry(string(s.EntryDN), opts...)
-		resp, base, addAttr = x, x, x.AddAttribute
+		b.resp, b.base, b.addAttr = x, x, x.AddAttribute
 	case "NewExtendedResponse":
 		x := r.NewExtendedResponse(opts...)
-		resp, base = x, x
+		b.resp, b.base = x, x
 	case "NewModifyResponse":
 		x := r.NewModifyResponse(opts...)
-		resp, base = x, x
+		b.resp, b.base = x, x
 	}
-	for _, st := range s.Setters {
-		switch st.Kind {
-		case "code":
-			base.SetResultCode(st.Code)
-		case "diag":
-			base.SetDiagnosticMessage(string(st.Str))
-		case "matched":
-			base.SetMatchedDN(string(st.Str))
-		case "controls":
-			cs, err := toGldapAll(st.Ctls)
-			if err != nil {
-				return err
-			}
-			setCtls(cs...)
-		case "addattr":
-			addAttr(string(st.Name), bytesToStrs(st.Vals))
-		}
-	}
-	return w.Write(resp)
+	return b
 }
 
 // expectation (last writer wins; nil = never set = unconstrained)
@@ -394,7 +447,7 @@ func c04Scripts(c *Ctx, useTLS bool) {
 			defer wg.Done()
 			r := c.Rng.Sub(fmt.Sprintf("w%d", w))
 			var mu sync.Mutex
-			scripts := map[string]*c04Script{}
+			scripts := map[string][]*c04Script{}
 			errs := map[string]error{}
 			handler := func(w *gldap.ResponseWriter, req *gldap.Request) {
 				var key string
@@ -410,7 +463,7 @@ func c04Scripts(c *Ctx, useTLS bool) {
 					return
 				}
 				if msg, st := catch(func() {
-					if err := s.run(w, req); err != nil {
+					if err := runGroup(w, req, s); err != nil {
 						mu.Lock()
 						errs[key] = err
 						mu.Unlock()
@@ -446,8 +499,15 @@ func c04Scripts(c *Ctx, useTLS bool) {
 					}
 					used[s.MsgID] = true
 					key := fmt.Sprintf("script-%d-%d", i, k)
-					scripts[key] = s
-					list = append(list, s)
+					group := []*c04Script{s}
+					// a third of the requests get 2..3 responses built from the same request
+					for g, ng := 0, pick(r, []int{0, 0, 1, 2}); g < ng; g++ {
+						s2 := genScript(r, pick(r, c04Ctors))
+						s2.MsgID = s.MsgID
+						group = append(group, s2)
+					}
+					scripts[key] = group
+					list = append(list, group...)
 					if r.Bool() {
 						all = append(all, sber.Message(s.MsgID, sber.BindRequest(3, []byte(key), []byte("p")), nil).Encode()...)
 					} else {
@@ -462,9 +522,9 @@ func c04Scripts(c *Ctx, useTLS bool) {
 				}
 				all = append(all, sber.Message(1, sber.UnbindRequest(), nil).Encode()...)
 				go cl.Send(all)
-				byID := map[int64]*c04Script{}
+				byID := map[int64][]*c04Script{}
 				for _, s := range list {
-					byID[s.MsgID] = s
+					byID[s.MsgID] = append(byID[s.MsgID], s)
 				}
 				frames := 0
 				for {
@@ -479,12 +539,16 @@ func c04Scripts(c *Ctx, useTLS bool) {
 					}
 					frames++
 					c.Count("bytes_parsed", int64(len(m.Raw)))
-					s := byID[m.ID]
-					if s == nil {
+					q := byID[m.ID]
+					if len(q) == 0 {
 						c.Violate("response carries a message ID no request had", fmt.Sprintf("message id %d", m.ID), nil)
 						continue
 					}
-					delete(byID, m.ID)
+					s := q[0] // frames written by one handler arrive in the order it wrote them
+					byID[m.ID] = q[1:]
+					if len(q) > 1 || len(scriptsOf(list, m.ID)) > 1 {
+						c.Count("responses_from_a_request_with_several_responses", 1)
+					}
 					c.Count("responses_checked", 1)
 					c.Count("scripts/"+s.Ctor, 1)
 					c.Distinct("script_shapes", s.sig())
@@ -501,15 +565,15 @@ func c04Scripts(c *Ctx, useTLS bool) {
 						c.Inconclusive("script error: " + e.Error())
 					}
 					delete(errs, key)
-					for id, s := range byID {
-						if s == scripts[key] {
-							delete(byID, id)
-						}
+					if g := scripts[key]; len(g) > 0 {
+						delete(byID, g[0].MsgID)
 					}
 				}
 				mu.Unlock()
-				for _, s := range byID {
-					c.Violate("a successful Write produced no frame at the client", s.sig(), map[string]any{"script": s})
+				for _, q := range byID {
+					for _, s := range q {
+						c.Violate("a successful Write produced no frame at the client", s.sig(), map[string]any{"script": s})
+					}
 				}
 				if i < 2 && len(list) > 0 {
 					c.Sample(map[string]any{"script": list[0]})
@@ -676,6 +740,16 @@ func c04GoLDAP(c *Ctx) {
 			}
 		}
 	}
+}
+
+func scriptsOf(list []*c04Script, id int64) []*c04Script {
+	var out []*c04Script
+	for _, s := range list {
+		if s.MsgID == id {
+			out = append(out, s)
+		}
+	}
+	return out
 }
 
 func validUTF8(b []byte) bool { return strings.ToValidUTF8(string(b), "\x00\x01") == string(b) }
